@@ -10,6 +10,11 @@
 //!       with the prover's own (changed) public inputs and verify against the original ones (must be
 //!       rejected) and against the changed ones (oracle: validity w.r.t. the changed ones).
 //!       output: `ref=<ok|Kind[i]@s> fix=<verdict> [own0=<verdict> own1=<ref>/<verdict>]`
+//!   cell <cfg> <col> <first> shift.<stride>.<pubpos>.<d>
+//!       MULTI-cell forgery against a sequence assertion (stride, first) whose values are the public inputs
+//!       `pubpos..`: the cells `first + k stride` of the column get the assertion's value polynomial evaluated under
+//!       another domain offset, P(g^d w^k) (d = 0 would be the honest values) — the trace a boundary constraint built
+//!       with a wrong offset would accept; judged and run exactly like a single corrupted cell.
 //!   auxcell <cfg> <aux col> <step>
 //!       honest main trace, ONE cell of the auxiliary segment corrupted after it was built (adds 1);
 //!       oracle: `genair::check_aux` on the committed auxiliary segment.
@@ -222,6 +227,29 @@ fn corrupt_value(kind: &str, v: u128, m: u128, seed: u64) -> Option<u128> {
     Some(nv)
 }
 
+/// multi-cell forgery `shift.<stride>.<pubpos>.<d>` (the `<step>` of the op is the first step `a` of a sequence
+/// assertion with that stride whose values are the public inputs `pubpos ..`): the cells `a + k stride` of the
+/// column get the values of the assertion's value polynomial under ANOTHER domain offset, `P(g^d w^k)` — what a
+/// boundary constraint built with a wrong offset would enforce (`genair::shifted_sequence_values`)
+fn forge_shift(c: &Cfg, pubs: &[u128], first: usize, spec: &str) -> Option<Vec<(usize, u128)>> {
+    let n = c.desc.trace_len;
+    let nums: Option<Vec<usize>> = spec.split('.').map(|x| x.parse::<usize>().ok()).collect();
+    let nums = nums?;
+    if nums.len() != 3 {
+        return None;
+    }
+    let (stride, pos, d) = (nums[0], nums[1], nums[2]);
+    if stride < 2 || !stride.is_power_of_two() || stride > n / 2 || first >= stride || d >= n {
+        return None;
+    }
+    let m = n / stride;
+    if pos + m > pubs.len() {
+        return None;
+    }
+    let vals = shifted_sequence_values(c.field, n, stride, &pubs[pos..pos + m], d as u64);
+    Some((0..m).map(|k| (first + k * stride, vals[k])).collect())
+}
+
 fn exec_cell(t: &[&str]) -> Outcome {
     if t.len() != 8 {
         return Outcome::ok("bad-op");
@@ -242,12 +270,23 @@ fn exec_cell(t: &[&str]) -> Outcome {
         return o.fail("c02.harness.gen-invalid", format!("generated trace violates {}", v));
     }
     let m = c.field.modulus();
-    let nv = match corrupt_value(t[7], trace[col][step], m, c.seed ^ ((col as u64) << 32) ^ step as u64) {
-        Some(v) => v,
-        None => return Outcome::ok("bad-op"),
-    };
     let mut bad = trace.clone();
-    bad[col][step] = nv;
+    if let Some(spec) = t[7].strip_prefix("shift.") {
+        match forge_shift(&c, &pubs0, step, spec) {
+            Some(cells) => {
+                for (s, v) in cells {
+                    bad[col][s] = v;
+                }
+            },
+            None => return Outcome::ok("bad-op"),
+        }
+    } else {
+        let nv = match corrupt_value(t[7], trace[col][step], m, c.seed ^ ((col as u64) << 32) ^ step as u64) {
+            Some(v) => v,
+            None => return Outcome::ok("bad-op"),
+        };
+        bad[col][step] = nv;
+    }
     let ref0 = is_valid(&c.desc, c.field, &bad, &pubs0);
     // cross-check of the reference predicate with the library's own (main segment only)
     if c.desc.aux.is_none() {
@@ -1138,6 +1177,391 @@ fn family4(n: usize) -> Vec<(AirDesc, Vec<usize>)> {
     v
 }
 
+// ---------------------------------------------------------------------------- fifth family: siblings in one group
+/// kind of a sibling assertion
+#[derive(Copy, Clone, PartialEq, Eq, Debug)]
+enum SK {
+    S,
+    P,
+    Q,
+}
+
+const KINDS: [SK; 3] = [SK::S, SK::P, SK::Q];
+
+/// one sibling: a single assertion at step `first`, or a periodic / sequence assertion (stride, first); a sequence
+/// with stride = trace length has ONE value and is normalised to a single assertion by the library
+#[derive(Copy, Clone, Debug)]
+struct Sib {
+    kind: SK,
+    stride: usize,
+    first: usize,
+}
+
+impl Sib {
+    fn new(kind: SK, stride: usize, first: usize) -> Sib {
+        Sib { kind, stride, first }
+    }
+    fn assert_on(&self, col: usize) -> AssertDesc {
+        match self.kind {
+            SK::S => AssertDesc::single(col, self.first),
+            SK::P => AssertDesc::periodic(col, self.first, self.stride),
+            SK::Q => AssertDesc::sequence(col, self.first, self.stride),
+        }
+    }
+    fn colgen(&self, alt: usize) -> ColGen {
+        match self.kind {
+            SK::S => ColGen::Rand,
+            SK::P => ColGen::Cyc(self.stride),
+            SK::Q => {
+                if alt % 3 == 2 {
+                    ColGen::Counter
+                } else {
+                    ColGen::Rand
+                }
+            },
+        }
+    }
+}
+
+/// a description with sibling assertions and where its siblings live
+struct SibCase {
+    desc: AirDesc,
+    sibs: Vec<Sib>,
+    /// column carrying the MAIN assertion of sibling i
+    main_cols: Vec<usize>,
+    /// auxiliary layout only: the main column whose image is the auxiliary column i (it carries no main assertion
+    /// and no constraint reads it: corrupting it violates the AUXILIARY assertion of sibling i only)
+    src_cols: Vec<usize>,
+    /// position of the first public value of sibling i
+    pub_pos: Vec<usize>,
+}
+
+/// Sibling assertions of the given kinds on neighbouring columns, sibling i on a LOWER column than sibling i+1 (the
+/// library sorts a group by column: sibling 0 opens the group when the (stride, first step) keys are equal).
+/// * main layout: c0 ruled (x' = x + 3), sibling i asserted on the free column 1 + i;
+/// * auxiliary layouts (1, 2): additionally a copy column per sibling (generated as a copy, tied by NO constraint) that
+///   carries the main assertion and so provides the public values; the auxiliary column i = r0 * c(1+i) + r1 carries the
+///   sibling's assertion with the value r0 * public value + r1; the last regular auxiliary column is the image of c0 and
+///   the only one a transition constraint reads. Layout 1: the main assertions have the same kinds, on copy columns in
+///   the OPPOSITE column order (main and auxiliary segment then both have the group, opened by different kinds);
+///   layout 2: the main segment asserts the same cells by SINGLE assertions only, so only the auxiliary segment has the
+///   group. The assertion LIST order is the column order or its reverse (`rev`), the auxiliary list has the opposite
+///   order of the main one.
+fn sibling_case(n: usize, sibs: &[Sib], layout: u8, lagrange: bool, rev: bool, alt: usize) -> Option<SibCase> {
+    let aux = layout != 0;
+    let ns = sibs.len();
+    let r = |i: usize| Expr::Rand(i);
+    let lin0 = Expr::add(c(0), k(3));
+    let mut cols = vec![ColGen::Step { init: None, expr: lin0.clone() }];
+    for (i, s) in sibs.iter().enumerate() {
+        cols.push(s.colgen(alt + i));
+    }
+    let (main_cols, src_cols): (Vec<usize>, Vec<usize>) = if aux {
+        for j in 0..ns {
+            // the column 1 + ns + j carries the main assertion of the sibling i with main_cols[i] = 1 + ns + j
+            cols.push(ColGen::Fn(c(1 + if layout == 1 { ns - 1 - j } else { j })));
+        }
+        ((0..ns).map(|i| if layout == 1 { 2 * ns - i } else { 1 + ns + i }).collect(), (0..ns).map(|i| 1 + i).collect())
+    } else {
+        ((0..ns).map(|i| 1 + i).collect(), vec![])
+    };
+    let order: Vec<usize> = if rev { (0..ns).rev().collect() } else { (0..ns).collect() };
+    let mut assertions = vec![];
+    let mut pub_pos = vec![0usize; ns];
+    let mut pos = 0;
+    for &i in &order {
+        let a = sibs[i].assert_on(main_cols[i]);
+        pub_pos[i] = pos;
+        pos += a.num_values(n);
+        if layout == 2 {
+            let steps = if sibs[i].kind == SK::Q { a.steps(n) } else { vec![sibs[i].first] };
+            for st in steps {
+                assertions.push(AssertDesc::single(main_cols[i], st));
+            }
+        } else {
+            assertions.push(a);
+        }
+    }
+    let mut d = AirDesc {
+        width: cols.len(),
+        trace_len: n,
+        exemptions: 1,
+        tail_junk: false,
+        periodic: vec![],
+        cols,
+        constraints: vec![cons(&[], n, Expr::sub(nx(0), lin0))],
+        assertions,
+        aux: None,
+    };
+    if aux {
+        let img = |j: usize| Expr::add(Expr::mul(r(0), c(j)), r(1));
+        let mut acols: Vec<AuxGen> = (0..ns).map(|i| AuxGen::Fn(img(1 + i))).collect();
+        acols.push(AuxGen::Fn(img(0)));
+        let aorder: Vec<usize> = if rev { (0..ns).collect() } else { (0..ns).rev().collect() };
+        let aa: Vec<AuxAssertDesc> = aorder
+            .iter()
+            .map(|&i| {
+                let pv = if sibs[i].kind == SK::Q { Expr::PubSeq(pub_pos[i]) } else { Expr::Pub(pub_pos[i]) };
+                AuxAssertDesc { a: sibs[i].assert_on(i), value: Expr::add(Expr::mul(r(0), pv), r(1)) }
+            })
+            .collect();
+        d.aux = Some(AuxDesc {
+            width: ns + 1 + lagrange as usize,
+            num_rands: 2,
+            lagrange,
+            cols: acols,
+            constraints: vec![cons(&[], n, Expr::sub(Expr::AuxCur(ns), img(0)))],
+            assertions: aa,
+        });
+    }
+    if d.validate().is_err() {
+        return None;
+    }
+    Some(SibCase { desc: d, sibs: sibs.to_vec(), main_cols, src_cols, pub_pos })
+}
+
+/// fifth hand-made family: sibling assertions of DIFFERENT KINDS that share a divisor group (the library groups boundary
+/// constraints by (stride, first step) and sorts a group by column), by construction:
+/// A. every ORDERED pair of kinds {single, periodic, sequence}^2 (first kind on the lower column) x every
+///    (stride, first step) incl. non-zero first steps, first step = stride - 1, stride = trace length (a one-value
+///    sequence, normalised to a single assertion, then shares the group of a single assertion at that step; a periodic
+///    assertion with one step has the same divisor in another group); a single sibling sits at the step `first`;
+/// B. the same kinds in DIFFERENT groups that differ in one key component only: equal strides / different first
+///    steps, equal first steps / different strides;
+/// C. three siblings in one group: all 27 kind triples; D. four siblings, alternating kinds;
+/// each in the three layouts of `sibling_case` (main segment only; main + auxiliary segment both with the group; the
+/// group on the auxiliary segment only), every fifth auxiliary one with a Lagrange kernel column, list order = column
+/// order and reversed.
+fn family5(n: usize, quick: bool) -> Vec<SibCase> {
+    let mut v: Vec<SibCase> = vec![];
+    let mut seen = std::collections::HashSet::new();
+    let mut idx = 0usize;
+    let mut push = |v: &mut Vec<SibCase>, sibs: &[Sib], layout: u8| {
+        idx += 1;
+        if let Some(sc) = sibling_case(n, sibs, layout, layout != 0 && idx % 5 == 0, idx % 2 == 1, idx) {
+            if seen.insert(sc.desc.to_line()) {
+                v.push(sc);
+            }
+        }
+    };
+    let mut keys: Vec<(usize, usize)> = vec![
+        (2, 0),
+        (2, 1),
+        (4, 0),
+        (4, 1),
+        (4, 2),
+        (4, 3),
+        (n / 2, 0),
+        (n / 2, 1),
+        (n / 2, n / 4 + 1),
+        (n / 2, n / 2 - 1),
+        (n, 0),
+        (n, 1),
+        (n, n / 2),
+        (n, n - 1),
+    ];
+    keys.sort();
+    keys.dedup();
+    // A
+    for &(stride, first) in &keys {
+        for k1 in KINDS {
+            for k2 in KINDS {
+                for layout in [0u8, 1, 2] {
+                    push(&mut v, &[Sib::new(k1, stride, first), Sib::new(k2, stride, first)], layout);
+                }
+            }
+        }
+    }
+    // B
+    let strided = [SK::P, SK::Q];
+    let mut diff: Vec<((usize, usize), (usize, usize))> = vec![
+        ((2, 0), (2, 1)),
+        ((2, 1), (2, 0)),
+        ((4, 1), (4, 3)),
+        ((4, 3), (4, 1)),
+        ((4, 1), (4, 0)),
+        ((n / 2, 1), (n / 2, 2)),
+        ((n, 1), (n, 2)),
+        ((n, 3), (n, 1)),
+        ((2, 1), (4, 1)),
+        ((4, 1), (2, 1)),
+        ((4, 3), (n / 2, 3)),
+        ((2, 1), (n, 1)),
+        ((n, 0), (2, 0)),
+        ((n / 2, 0), (4, 0)),
+    ];
+    diff.retain(|(a, b)| a != b);
+    for &((s1, a1), (s2, a2)) in &diff {
+        for k1 in strided {
+            for k2 in strided {
+                for layout in [0u8, 1, 2] {
+                    push(&mut v, &[Sib::new(k1, s1, a1), Sib::new(k2, s2, a2)], layout);
+                }
+            }
+        }
+    }
+    // C
+    let mut tkeys: Vec<(usize, usize)> = vec![(2, 1), (4, 1), (4, 3), (n / 2, n / 2 - 1), (n, 1), (2, 0)];
+    tkeys.sort();
+    tkeys.dedup();
+    let mut ti = 0usize;
+    for &(stride, first) in &tkeys {
+        for k1 in KINDS {
+            for k2 in KINDS {
+                for k3 in KINDS {
+                    ti += 1;
+                    for layout in [0u8, 1, 2] {
+                        // quick tier, longer traces: every triple still occurs, on alternating layouts
+                        if quick && n > 8 && (ti + layout as usize) % 3 != 0 {
+                            continue;
+                        }
+                        push(&mut v, &[Sib::new(k1, stride, first), Sib::new(k2, stride, first), Sib::new(k3, stride, first)], layout);
+                    }
+                }
+            }
+        }
+    }
+    // D
+    for &(stride, first) in &[(4usize, 1usize), (n / 2, n / 2 - 1), (2, 1)] {
+        for ks in [[SK::P, SK::Q, SK::P, SK::Q], [SK::Q, SK::P, SK::Q, SK::P], [SK::P, SK::P, SK::Q, SK::Q], [SK::Q, SK::Q, SK::P, SK::P]] {
+            for layout in [0u8, 1, 2] {
+                let sibs: Vec<Sib> = ks.iter().map(|k| Sib::new(*k, stride, first)).collect();
+                push(&mut v, &sibs, layout);
+            }
+        }
+    }
+    v
+}
+
+/// the op lines of one sibling configuration: the honest proof must verify (`stmt … none`); EVERY asserted cell of EVERY
+/// sibling is violated individually (on the column carrying the main assertion; in the auxiliary layout also through the
+/// source column — only the auxiliary assertion is violated — and in the committed auxiliary column itself); one
+/// non-asserted cell per sibling column is changed (the trace stays valid: must be accepted); every sequence sibling
+/// is attacked with the value polynomial under other domain offsets (no shift, shift in the wrong direction, the offset
+/// of a sibling, neighbouring offsets)
+fn emit_siblings(cfg: &Cfg, sc: &SibCase, idx: usize, rich: bool, emit: &mut dyn FnMut(String)) {
+    let d = &cfg.desc;
+    let n = d.trace_len;
+    let ct = cfg_text(cfg);
+    let has_aux = d.aux.is_some();
+    emit(format!("stmt {} none", ct));
+    let trace = gen_trace(d, cfg.field, cfg.seed);
+    let pubs = pub_inputs(d, cfg.field, &trace);
+    let small = n * d.width <= 128;
+    let mut valid_line = |bad: &TraceData, emit: &mut dyn FnMut(String)| {
+        if small {
+            emit(format!("valid {} {} {} {}", cfg.field.name(), d.to_line(), csv(&pubs), trace_text(bad)));
+        }
+    };
+    let m = cfg.field.modulus();
+    for (i, s) in sc.sibs.iter().enumerate() {
+        let a = s.assert_on(sc.main_cols[i]);
+        let steps = a.steps(n);
+        for (si, st) in steps.iter().enumerate() {
+            let kinds: Vec<&str> = if rich { vec!["inc", "rnd"] } else { vec![if (idx + si + i) % 2 == 0 { "inc" } else { "rnd" }] };
+            for kind in kinds {
+                emit(format!("cell {} {} {} {}", ct, sc.main_cols[i], st, kind));
+                if has_aux {
+                    emit(format!("cell {} {} {} {}", ct, sc.src_cols[i], st, kind));
+                }
+            }
+            if has_aux {
+                emit(format!("auxcell {} {} {}", ct, i, st));
+                emit(format!("auxcell {} {} {} {}", ct, i, st, ["ext", "two", "p32", "dec"][(idx + si + i) % 4]));
+            }
+            if si == 0 && i == 0 {
+                if let Some(nv) = corrupt_value("inc", trace[sc.main_cols[i]][*st], m, 0) {
+                    let mut bad = trace.clone();
+                    bad[sc.main_cols[i]][*st] = nv;
+                    valid_line(&bad, emit);
+                }
+            }
+        }
+        // a cell no assertion names, on a column no constraint reads
+        let free = (s.first + 1) % n;
+        if !steps.contains(&free) {
+            emit(format!("cell {} {} {} inc", ct, sc.main_cols[i], free));
+            if has_aux {
+                emit(format!("cell {} {} {} rnd", ct, sc.src_cols[i], free));
+            }
+        }
+        // the value polynomial under other offsets
+        if s.kind == SK::Q && s.stride <= n / 2 {
+            let mut ds: Vec<usize> = vec![s.first, (2 * s.first) % n, 1, n - 1, s.stride];
+            for o in &sc.sibs {
+                ds.push((s.first + n - o.first) % n);
+                ds.push((s.first + o.first) % n);
+            }
+            ds.retain(|x| *x % n != 0);
+            ds.sort();
+            ds.dedup();
+            for dd in ds {
+                let spec = format!("{}.{}.{}", s.stride, sc.pub_pos[i], dd);
+                emit(format!("cell {} {} {} shift.{}", ct, sc.main_cols[i], s.first, spec));
+                if has_aux {
+                    emit(format!("cell {} {} {} shift.{}", ct, sc.src_cols[i], s.first, spec));
+                }
+                if dd == s.first || dd == 1 {
+                    if let Some(cells) = forge_shift(cfg, &pubs, s.first, &spec) {
+                        let mut bad = trace.clone();
+                        for (st, nv) in cells {
+                            bad[sc.main_cols[i]][st] = nv;
+                        }
+                        valid_line(&bad, emit);
+                    }
+                }
+            }
+        }
+    }
+}
+
+/// evidence label of a description with a boundary-constraint group (key (stride, first step); single assertions and
+/// one-value sequences have stride 0) that has members of different kinds or more than two members: kinds of the
+/// two lowest columns of the first such group (s single, u one-value sequence, p periodic, q sequence) and zero /
+/// non-zero first step
+fn group_sig(desc_line: &str) -> Option<String> {
+    let mut n = 0usize;
+    let mut segs: Vec<(char, Vec<&str>)> = vec![];
+    for f in desc_line.split(';') {
+        if let Some(v) = f.strip_prefix("l=") {
+            n = v.parse().ok()?;
+        } else if let Some(v) = f.strip_prefix("a=") {
+            segs.push(('m', v.split(',').collect()));
+        } else if let Some(v) = f.strip_prefix("b=") {
+            segs.push(('x', v.split(',').map(|x| x.split('=').next().unwrap_or("")).collect()));
+        }
+    }
+    let mut sigs: Vec<String> = vec![];
+    for (seg, items) in segs {
+        let mut groups: std::collections::BTreeMap<(usize, usize), Vec<(usize, char)>> = Default::default();
+        for it in items {
+            if it.is_empty() {
+                continue;
+            }
+            let nums: Vec<usize> = it[1..].split('.').filter_map(|x| x.parse().ok()).collect();
+            let kc = it.as_bytes()[0] as char;
+            let (key, ch) = match (kc, nums.len()) {
+                ('s', 2) => ((0, nums[1]), 's'),
+                ('p', 3) => ((nums[2], nums[1]), 'p'),
+                ('q', 3) if nums[2] == n => ((0, nums[1]), 'u'),
+                ('q', 3) => ((nums[2], nums[1]), 'q'),
+                _ => return None,
+            };
+            groups.entry(key).or_default().push((nums[0], ch));
+        }
+        for ((_, first), mut g) in groups {
+            g.sort();
+            let mixed = g.iter().any(|x| x.1 != g[0].1);
+            if g.len() >= 2 && (mixed || g.len() > 2) {
+                sigs.push(format!("{}{}.{}", g[0].1, g[1].1, if first == 0 { "0" } else { "nz" }));
+                break;
+            }
+        }
+        let _ = seg;
+    }
+    sigs.into_iter().next()
+}
+
 fn options_for(d: &AirDesc, field: FieldId, k: usize) -> OptSpec {
     let b = d.min_blowup().max(if k % 3 == 0 { 4 } else { 2 });
     let exts: Vec<u8> = (1..=3u8).filter(|x| field.supports_ext(*x)).collect();
@@ -1395,6 +1819,23 @@ impl Prop for P {
                 }
             }
         }
+        // fifth family: sibling assertions of different kinds in one boundary-constraint group (and in groups that
+        // differ in one key component), every asserted cell of every sibling violated individually on both segments,
+        // offset forgeries of every sequence sibling, the honest proof verified first
+        let lens5: &[usize] = if quick { &[8, 16] } else { &[8, 16, 32] };
+        for &len in lens5 {
+            for (di, sc) in family5(len, quick).into_iter().enumerate() {
+                let field = FieldId::ALL[(di + di / 7) % 3];
+                let hashes = HashId::for_field(field);
+                k += 1;
+                let mut opts = options_for(&sc.desc, field, k);
+                if opts.queries >= len * opts.blowup {
+                    opts.queries = 3;
+                }
+                let cfg = Cfg { field, hash: hashes[(di / 3) % hashes.len()], opts, seed: 8000 + k as u64, desc: Arc::new(sc.desc.clone()) };
+                emit_siblings(&cfg, &sc, di, !quick || len == 8, emit);
+            }
+        }
         // random descriptions of the shared family
         for i in 0..nrand {
             let field = *rng.pick(&FieldId::ALL);
@@ -1472,7 +1913,12 @@ impl Prop for P {
                 let r = out.split(' ').next().unwrap_or("");
                 let rk = if r == "ref=ok" { "valid" } else if r.starts_with("ref=") { r[4..].split('[').next().unwrap_or("") } else { r };
                 let v = out.split(' ').nth(1).unwrap_or("").split(|c| c == ':' || c == '@').next().unwrap_or("");
-                format!("{}.{}:{}+{}", op, t.get(1).unwrap_or(&""), rk, v)
+                // sibling assertions of different kinds in one boundary-constraint group; multi-cell offset forgeries
+                let opn = if t.get(8).map(|x| x.starts_with("shift.")).unwrap_or(false) { "cell-shift" } else { op };
+                match t.get(5).and_then(|d| group_sig(d)) {
+                    Some(sig) => format!("{}.sib[{}]:{}+{}", opn, sig, rk, v),
+                    None => format!("{}.{}:{}+{}", opn, t.get(1).unwrap_or(&""), rk, v),
+                }
             },
             "stmt" => {
                 let p = t.last().unwrap_or(&"").split(':').next().unwrap_or("");
